@@ -198,6 +198,8 @@ CATALOGUE = [
     ("woff2-components-flag-on-every-record", "ttLib/woff2.py", "            if i == lastcomponent:\n                haveInstructions = hasattr(glyph, \"program\")\n                more = 0", "            haveInstructions = hasattr(glyph, \"program\")\n            if i == lastcomponent:\n                more = 0", "C04", "WOFF2ComponentsLoop", "alarm"),
     ("woff2-glyf-trailing-bytes-accepted", "ttLib/woff2.py", "        if offset != inputDataSize:", "        if offset > inputDataSize:", "C04", "WOFF2GlyfContainerRoundTrip", "alarm"),
     ("woff2-glyf-overlap-bitmap-always-written", "ttLib/woff2.py", "        if hasOverlapSimpleBitmap:\n            data += self.overlapSimpleBitmap.tobytes()\n        return data", "        data += self.overlapSimpleBitmap.tobytes()\n        return data", "C04", "WOFF2GlyfContainerRoundTrip", "alarm"),
+    ("woff2-loca-short-limit-off-by-one", "ttLib/woff2.py", "                if max_location >= 0x20000:", "                if max_location > 0x20000:", "C04", "WOFF2LocaCompile", "alarm"),
+    ("woff2-private-data-padding", "ttLib/woff2.py", "            offset = (offset + 3) & ~3\n            self.privOffset = offset", "            offset = (offset + 4) & ~3\n            self.privOffset = offset", "C04", "WOFF2FlavorDataOffsets", "alarm"),
     ("closure-memo-subset-spelling", "subset/__init__.py", "    if cur_glyphs.issubset(covered):\n        return\n    covered.update(cur_glyphs)\n\n    for st in self.SubTable:", "    if cur_glyphs <= covered:\n        return\n    covered.update(cur_glyphs)\n\n    for st in self.SubTable:", "C07", "LookupClosureMemo", "green"),
 ]
 
